@@ -1,20 +1,15 @@
+use dsi_progress_logger::no_logging;
 use sux::prelude::*;
-use vh::rt::*;
+use sux::func::shard_edge::*;
+use sux::utils::FromIntoIterator;
 fn main() {
-    install_handlers();
-    let idx = 0usize;
-    let checks: [(&str, Box<dyn Fn(&mut BitVec) -> ()>); 2] = [
-        ("get", Box::new(move |b: &mut BitVec| { let _ = b.get(idx); })),
-        ("set", Box::new(move |b: &mut BitVec| b.set(idx, true))),
-    ];
-    for (s, f) in checks.iter() {
-        let mut b = unsafe { BitVec::from_raw_parts(vec![1usize], 0) };
-        let r = guard(|| f(&mut b));
-        println!("{s} {}", r.is_panic());
+    let n: usize = std::env::args().nth(1).unwrap().parse().unwrap();
+    let which = std::env::args().nth(2).unwrap();
+    if which == "a" {
+        let f = VBuilder::<usize, Box<[usize]>, [u64; 2], Mwhc3NoShards>::default().expected_num_keys(n).try_build_func(FromIntoIterator::from(0..n), FromIntoIterator::from(0..n), no_logging![]).unwrap();
+        assert_eq!(f.len(), n);
+    } else {
+        let g = VBuilder::<usize, BitFieldVec<usize>, [u64; 2], Mwhc3Shards>::default().expected_num_keys(n).try_build_func(FromIntoIterator::from(0..n), FromIntoIterator::from(0..n), no_logging![]).unwrap();
+        assert_eq!(g.len(), n);
     }
-    let b = unsafe { BitVec::from_raw_parts(vec![1usize], 0) };
-    let r = guard(|| { let _ = b.get(idx); });
-    println!("direct {}", r.is_panic());
-    let r = guard(|| { b.get(idx) });
-    println!("direct2 {}", r.is_panic());
 }
